@@ -22,14 +22,20 @@ import numpy as np
 
 import jax
 
-jax.config.update("jax_enable_x64", True)
-from jax import numpy as jnp  # noqa: E402
-
 REPO = os.environ.get("VERIF_REPO", "/repo")
 if REPO not in sys.path:
     sys.path.insert(0, REPO)
 
+# Order as in the library's own tests and notebooks: the package is imported FIRST (under JAX's default 32-bit mode) and
+# jax_enable_x64 is switched on afterwards.  Anything the package computes at import time (module-level constants) is
+# therefore created exactly as a user gets it; with the opposite order a float32 constant frozen at import would be
+# invisible to every check.  All harness modules import the library through this module.
 from gaussian_toolbox import factor, measure, pdf, conditional  # noqa: E402
+from gaussian_toolbox import approximate_conditional as _ac  # noqa: E402,F401
+from gaussian_toolbox.experimental import truncated_measure as _tm0  # noqa: E402,F401
+
+jax.config.update("jax_enable_x64", True)
+from jax import numpy as jnp  # noqa: E402
 
 from .decode import LNum, qarr, qval, to_float, to_jsonable  # noqa: E402
 
